@@ -119,7 +119,7 @@ fn part_b(depth: usize, roots_w: usize) -> (explore::Stats, Acc) {
             acc.inc("law_checks");
             let by_add = catch(|| { let mut r = ns.clone(); for x in e.assertions() { r = r.add_assertion_envelope(x).ok()? } Some(r) });
             if let (Ok(Some(want)), Ok(got)) = (by_add, catch(|| e.replace_subject(ns.clone()))) {
-                if got.to_cbor_data() != want.to_cbor_data() { acc.viol(format!("C07|replace_subject|{sn}|differs-from-adding-one-by-one"), "replace_subject onto a new subject gives another envelope than adding the same assertions to that subject one by one", format!("b/{}/replace_subject({sn})", desc()), json!({"envelope": hex::encode(&b), "got": got.format_flat(), "want": want.format_flat()})) }
+                if got.to_cbor_data() != want.to_cbor_data() { acc.viol(format!("C07|replace_subject|{sn}|differs-from-adding-one-by-one"), "replace_subject onto a new subject gives another envelope than adding the same assertions to that subject one by one", format!("b/{}/replace_subject({sn})", desc()), json!({"envelope": hex::encode(&b), "got": crate::report::ff(&got), "want": crate::report::ff(&want)})) }
             }
         }
         acc.inc("law_checks");
